@@ -84,8 +84,11 @@ def run_case(case) -> tuple[str, str] | None:
     cls = case["cls"]
     preset = tuple(case["preset"])
     seq = [T.from_json(s) for s in case["seq"]]
+    if case.get("continue"):
+        return run_continue(case, seq)
     try:
-        opts = DR.make_options(cls, preset, case.get("frame_size", 250), True)
+        opts = DR.make_options(cls, preset, case.get("frame_size", 250), True,
+                               generalized=case.get("generalized", True))
         if api == "generic":
             data = DR.g_write(seq, cls, opts, "stream_frames_gen")
         else:
@@ -108,6 +111,54 @@ def run_case(case) -> tuple[str, str] | None:
     return None
 
 
+def run_continue(case, seq):
+    """A producer that feeds one stream statement by statement, skips a statement that is refused
+    and carries on: what ends up in the file must decode to exactly the accepted statements."""
+    import io  # noqa: PLC0415
+
+    from pyjelly.serialize.ioutils import write_delimited  # noqa: PLC0415
+
+    api, cls = case["api"], case["cls"]
+    opts = DR.make_options(cls, tuple(case["preset"]), 250, True)
+    stream = DR.g_stream(cls, opts) if api == "generic" else DR.r_stream(cls, opts)
+    conv = T.st_to_generic if api == "generic" else T.st_to_rdflib
+    out = io.BytesIO()
+    stream.enroll()
+    accepted = []
+    for st in seq:
+        try:
+            fr = stream.triple(conv(st)) if cls == "triple" else stream.quad(conv(st))
+        except Exception:  # noqa: BLE001
+            continue
+        accepted.append(T.norm_st(st))
+        if fr is not None:
+            write_delimited(fr, out)
+    fr = stream.flow.to_stream_frame()
+    if fr is not None:
+        write_delimited(fr, out)
+    try:
+        _, per = jspec.decode_frames(jwire.read_delimited(out.getvalue()))
+    except (jspec.SpecViolation, jwire.WireError) as e:
+        return "undecodable", (f"after a refused statement the producer carried on and the file "
+                               f"is rejected by the reference decoder: {e}")
+    got = [T.norm_st(s) for s in jspec.statements(per)]
+    if got != accepted:
+        return "corrupted", (f"after a refused statement the producer carried on: the file decodes "
+                             f"to {got}, the accepted statements were {accepted}")
+    return None
+
+
+def starlit_statements() -> list:
+    """Regular (non-generalized) RDF-star statements with several typed literals, all of them
+    objects of quoted triples."""
+    a, b = IRIS[0], IRIS[4]
+    out = []
+    for d1, d2, d3 in itertools.product(range(3), repeat=3):
+        out.append((T.T(a, b, LITS[d1]), b, T.T(a, b, T.T(b, a, LITS[d2]))))
+        out.append((a, b, T.T(T.T(a, b, LITS[d1]), a, T.T(b, b, T.T(a, a, LITS[d3])))))
+    return out
+
+
 def overflow_tables(st, preset) -> list[str]:
     names, pf, dt = preset
     n, p, d = AL.needs(st, pf > 0)
@@ -123,6 +174,8 @@ def overflow_tables(st, preset) -> list[str]:
 
 def shard(job) -> dict:
     kind, lo, hi, hist_len, quick = job
+    if kind == "starlit":
+        return starlit_shard(job)
     acc = pool.Acc()
     sts, nested = cases_for(quick)
     pool_sts = sts if kind == "flat" else nested
@@ -153,6 +206,27 @@ def shard(job) -> dict:
                                 continue
                             case = {"api": api, "cls": cls, "preset": list(preset),
                                     "seq": [list(s) for s in seq]}
+                            if cls != "graph" and not hist and kind == "flat":
+                                # catch-and-continue: a history, the overflowing statement, then
+                                # one that shares its subject and predicate
+                                for h in HISTORY[:2]:
+                                    follow = (st[0], st[1], L("z"))
+                                    s3 = [h, st, follow]
+                                    if cls != "triple":
+                                        s3 = [(*x, g) for x in s3]
+                                    if not (AL.fits(s3[0], preset) and AL.fits(s3[2], preset)):
+                                        continue
+                                    c3 = {"api": api, "cls": cls, "preset": list(preset),
+                                          "seq": [list(x) for x in s3], "continue": True}
+                                    acc.evals += 1
+                                    acc.nontrivial += 1
+                                    r3 = run_case(c3)
+                                    if r3 is None:
+                                        acc.counters["ok_or_refused"] += 1
+                                    else:
+                                        acc.violation({"fail": r3[0], "continue": True},
+                                                      f"{r3[1]} preset={preset} api={api} cls={cls}",
+                                                      c3)
                             acc.evals += 1
                             acc.nontrivial += 1
                             r = run_case(case)
@@ -174,19 +248,50 @@ def shard(job) -> dict:
     return acc.out()
 
 
+def starlit_shard(job) -> dict:
+    acc = pool.Acc()
+    for st in starlit_statements():
+        for cls in ("triple", "quad"):
+            full = st if cls == "triple" else (*st, IRIS[1])
+            for dt in (1, 2):
+                n, p, d = AL.needs(full, True)
+                if d <= dt:
+                    continue
+                for generalized in (True, False):
+                    for hist in ([], [HISTORY[2]]):
+                        seq = [*hist, st]
+                        if cls != "triple":
+                            seq = [(*x, IRIS[1]) for x in seq]
+                        case = {"api": "generic", "cls": cls, "preset": [8, 3, dt],
+                                "seq": [list(x) for x in seq], "generalized": generalized}
+                        acc.evals += 1
+                        acc.nontrivial += 1
+                        r = run_case(case)
+                        if r is None:
+                            acc.counters["ok_or_refused"] += 1
+                            continue
+                        acc.violation({"fail": r[0], "tables": "datatype", "starlit": True,
+                                       "generalized": generalized},
+                                      f"{r[1]}; regular RDF-star statement with typed literals, "
+                                      f"datatype table {dt}, generalized_statements={generalized}",
+                                      case)
+    return acc.out()
+
+
 def run(ctx) -> None:
     sts, nested = cases_for(ctx.quick)
     hist_len = 1 if ctx.quick else 2
     jobs = [("flat", lo, hi, hist_len, ctx.quick) for lo, hi in pool.split_range(len(sts), 48)]
     jobs += [("nested", lo, hi, hist_len, ctx.quick)
              for lo, hi in pool.split_range(len(nested), len(nested))]
+    jobs.append(("starlit", 0, 0, 0, ctx.quick))
     merged = pool.merge(pool.pmap(shard, jobs))
     ctx.add(merged)
     ctx.coverage.update(
         evaluations=merged["evals"],
         distinct_nontrivial=merged["nontrivial"],
         exhaustive=True,
-        statements=len(sts) + len(nested),
+        statements=len(sts) + len(nested) + len(starlit_statements()),
         ok_or_refused=merged["counters"].get("ok_or_refused", 0),
         samples=merged["samples"] or [{"statement": sts[1]}],
         rule=(
@@ -194,7 +299,10 @@ def run(ctx) -> None:
             "nested to depth 2 with 27 IRI leaves over k=9..27 names, x every preset "
             "(names{8,12,20,26} x prefixes{0..3} x datatypes{0..3}) in which an enabled table is "
             f"smaller than the statement needs x histories of length<={hist_len} x three stream "
-            "classes x graph names; every case is non-trivial by construction (a table overflows)"
+            "classes x graph names; regular RDF-star statements with typed literals inside quoted "
+            "triples x generalized_statements on/off; catch-and-continue producers (a history, the "
+            "overflowing statement, a statement sharing its subject and predicate); every case is "
+            "non-trivial by construction (a table overflows)"
         ),
     )
 
